@@ -11,6 +11,7 @@ package main
 import (
 	"encoding/json"
 	"fmt"
+	"io"
 	"os"
 	"runtime"
 	"strconv"
@@ -25,16 +26,31 @@ func main() {
 		fmt.Fprintln(os.Stderr, "usage: oneshot seq|concurrent <gomaxprocs>")
 		os.Exit(2)
 	}
-	var specs []enc.EncSpec
-	if err := json.NewDecoder(os.Stdin).Decode(&specs); err != nil {
+	// input: either a JSON array of specs, or {"specs": [...], "after": [...]}; the "after" calls are executed
+	// sequentially once the first phase has finished (is the shared state still sound after the contention?)
+	raw, err := io.ReadAll(os.Stdin)
+	if err != nil {
 		fmt.Fprintln(os.Stderr, "bad input:", err)
 		os.Exit(2)
 	}
+	var specs, after []enc.EncSpec
+	if err := json.Unmarshal(raw, &specs); err != nil {
+		var in struct {
+			Specs []enc.EncSpec `json:"specs"`
+			After []enc.EncSpec `json:"after"`
+		}
+		if err2 := json.Unmarshal(raw, &in); err2 != nil {
+			fmt.Fprintln(os.Stderr, "bad input:", err, err2)
+			os.Exit(2)
+		}
+		specs, after = in.Specs, in.After
+	}
 	out := struct {
-		Fingerprints     []string `json:"fingerprints"`
-		GoroutinesBefore int      `json:"goroutines_before"`
-		GoroutinesAfter  int      `json:"goroutines_after"`
-	}{Fingerprints: make([]string, len(specs))}
+		Fingerprints      []string `json:"fingerprints"`
+		AfterFingerprints []string `json:"after_fingerprints"`
+		GoroutinesBefore  int      `json:"goroutines_before"`
+		GoroutinesAfter   int      `json:"goroutines_after"`
+	}{Fingerprints: make([]string, len(specs)), AfterFingerprints: make([]string, len(after))}
 	switch os.Args[1] {
 	case "seq":
 		out.GoroutinesBefore = runtime.NumGoroutine()
@@ -69,6 +85,9 @@ func main() {
 		}
 	default:
 		os.Exit(2)
+	}
+	for i, sp := range after {
+		out.AfterFingerprints[i] = enc.Fingerprint(enc.Encode(sp))
 	}
 	// let library goroutines that are about to exit do so
 	for i := 0; i < 200 && runtime.NumGoroutine() > out.GoroutinesBefore; i++ {
